@@ -283,11 +283,10 @@ Theorem frame_reindex_label_spec opi opc index columns (t : list (blk V)) ni nc 
   (forall d, ni = Some d -> NoDup d) -> (forall d, nc = Some d -> NoDup d) ->
   length (flatten t) = length columns ->
   Forall (fun c : col => length (snd c) = length index) (flatten t) ->
-  frame_dom A eqb index columns ni nc = true ->
   exists t', M_frame_reindex_g A V eqb leb sortable fill castf fdt fill_dtype opi opc index columns t ni nc = Ok t' /\
              flatten t' = S_frame_reindex A V eqb fill castf fdt fill_dtype index columns (flatten t) ni nc.
 Proof.
-  intros Hwf Hni Hnc Hdi Hdc Hlen Hrows Hdom. unfold M_frame_reindex_g.
+  intros Hwf Hni Hnc Hdi Hdc Hlen Hrows. unfold M_frame_reindex_g.
   pose proof (axis_ic_props opi index ni Hni Hdi) as Pi.
   pose proof (axis_ic_props opc columns nc Hnc Hdc) as Pc.
   assert (Eic : exists ic, axis_ic A eqb leb sortable opi index ni = Some ic).
@@ -302,19 +301,9 @@ Proof.
   { destruct (reindexes A eqb columns nc).
     - destruct Pc as [c [E [Hw [Hr _]]]]. rewrite E in Ecc. injection Ecc as <-. rewrite Hlen. split; assumption.
     - rewrite Pc in Ecc. injection Ecc as <-. exact I. }
-  assert (Hrd : resize_dom ic cc = true).
-  { unfold frame_dom in Hdom.
-    destruct (reindexes A eqb index ni) as [di|]; destruct (reindexes A eqb columns nc) as [dc|].
-    - destruct Pi as [i [Ei [_ [_ [_ [Hhi [Hsi _]]]]]]]. destruct Pc as [c [Ec [_ [_ [_ [Hhc _]]]]]].
-      rewrite Ei in Eic. injection Eic as <-. rewrite Ec in Ecc. injection Ecc as <-.
-      cbn. rewrite Hhi, Hhc. apply Bool.eqb_prop in Hdom. rewrite Hdom.
-      destruct (touches A eqb columns dc); cbn; [apply orb_true_r | reflexivity].
-    - rewrite Pc in Ecc. injection Ecc as <-. reflexivity.
-    - rewrite Pi in Eic. injection Eic as <-. destruct cc; reflexivity.
-    - rewrite Pc in Ecc. injection Ecc as <-. reflexivity. }
-  destruct (resize_blocks_layout_independent V fill castf fdt fill_dtype t (length index) ic cc Hwf Hcc Hrd)
+  destruct (resize_blocks_layout_independent V fill castf fdt fill_dtype t (length index) ic cc Hwf Hcc)
     as [t' [EM EF]].
-  exists t'. split; [exact EM|]. rewrite EF. clear EM EF Hrd Hcc.
+  exists t'. split; [exact EM|]. rewrite EF. clear EM EF Hcc.
   unfold S_resize_cols, S_frame_reindex.
   assert (Hcol : forall c, In c (flatten t) -> S_col_rows V fill castf fdt ic c = S_row A V eqb fill castf fdt index ni c).
   { intros c Hc. apply (S_col_rows_S_row index ni opi ic c Hni Hdi); [|exact Eic].
